@@ -620,15 +620,15 @@ func historyFree(raw json.RawMessage, c *lcase) {
 		run.Count("")
 		p, err := profile.ParseData(data)
 		if err != nil {
-			run.Violate("history", msig(&hc, "history"), fmt.Sprintf("parse #%d of a document that parse #1 accepted is rejected: %v\n%s", n, err, show), raw, nil)
+			run.Violate("history", msig(&hc, "history"), withDoc(fmt.Sprintf("parse %d of a document that parse 1 accepted is rejected: %v", n, err), show), raw, nil)
 			return
 		}
 		if got := p.String(); got != first {
-			run.Violate("history", msig(&hc, "history"), fmt.Sprintf("parse #%d of the same document in one process differs from parse #1 (which was what the specification expects)\nparse #%d:\n%s\nparse #1:\n%s\ndocument:\n%s", n, n, got, first, show), raw, nil)
+			run.Violate("history", msig(&hc, "history"), withDoc(fmt.Sprintf("parse %d of the same document in one process differs from parse 1 (which was what the specification expects)", n), fmt.Sprintf("parse %d:\n%s\nparse 1:\n%s\ndocument:\n%s", n, got, first, show)), raw, nil)
 		}
 		for _, m := range p.Mapping {
 			if k, ok := held[m]; ok {
-				run.Violate("sharing", msig(&hc, "shared-mapping"), fmt.Sprintf("parse #%d and parse #%d of the same document returned profiles holding the same Mapping object (%s [%x,%x)): editing one profile edits the other\n%s", k, n, m.File, m.Start, m.Limit, show), raw, nil)
+				run.Violate("sharing", msig(&hc, "shared-mapping"), withDoc(fmt.Sprintf("parse %d and parse %d of the same document returned profiles holding the same Mapping object (%s [%x,%x)): editing one profile edits the other", k, n, m.File, m.Start, m.Limit), show), raw, nil)
 				break
 			}
 		}
@@ -636,10 +636,17 @@ func historyFree(raw json.RawMessage, c *lcase) {
 			held[m] = n
 		}
 		if now := p1.String(); now != first {
-			run.Violate("history", msig(&hc, "history"), fmt.Sprintf("parse #%d of the same document changed the profile that parse #1 had returned\nnow:\n%s\nbefore:\n%s\ndocument:\n%s", n, now, first, show), raw, nil)
+			run.Violate("history", msig(&hc, "history"), withDoc(fmt.Sprintf("parse %d of the same document changed the profile that parse 1 had returned", n), fmt.Sprintf("now:\n%s\nbefore:\n%s\ndocument:\n%s", now, first, show)), raw, nil)
 			return
 		}
 	}
+}
+
+// withDoc puts the document under the message. The one-line report of a violation is the first 200 characters of its
+// detail: the message is padded to that length so that the line never runs into the document (whose comment lines would
+// read as signatures there).
+func withDoc(msg, doc string) string {
+	return fmt.Sprintf("%-200s\n%s", msg, doc)
 }
 
 func sig(c *lcase, what string) string {
@@ -682,13 +689,13 @@ func compare(raw json.RawMessage, c *lcase, data []byte, k int, describe bool) (
 		return string(data)
 	}
 	bad := 0
-	violate := func(check, sg, detail string) {
+	violate := func(check, sg, msg string) {
 		bad++
-		run.Violate(check, sg, detail, raw, nil)
+		run.Violate(check, sg, withDoc(msg, show()), raw, nil)
 	}
 	p, err := profile.ParseData(data)
 	if err != nil {
-		violate("parse", sig(c, "rejected"), fmt.Sprintf("well-formed %s document rejected: %v\n%s", c.Doc.Fmt, err, show()))
+		violate("parse", sig(c, "rejected"), fmt.Sprintf("well-formed %s document rejected: %v", c.Doc.Fmt, err))
 		return nil, ""
 	}
 	text := ""
@@ -696,11 +703,11 @@ func compare(raw json.RawMessage, c *lcase, data []byte, k int, describe bool) (
 		text = p.String()
 	}
 	if len(p.Sample) != len(c.Stacks) {
-		violate("samples", sig(c, "sample-count"), fmt.Sprintf("%d samples, the document has %d records (threadz: minus same-as-previous)\n%s", len(p.Sample), len(c.Stacks), show()))
+		violate("samples", sig(c, "sample-count"), fmt.Sprintf("%d samples, the document has %d records (threadz: minus same-as-previous)", len(p.Sample), len(c.Stacks)))
 		return nil, ""
 	}
 	if p.Period != c.Period {
-		violate("period", sig(c, "period"), fmt.Sprintf("period %d, want %d\n%s", p.Period, c.Period, show()))
+		violate("period", sig(c, "period"), fmt.Sprintf("period %d, want %d", p.Period, c.Period))
 	}
 	java := strings.HasPrefix(c.Doc.Fmt, "java")
 	if !java {
@@ -717,7 +724,7 @@ func compare(raw json.RawMessage, c *lcase, data []byte, k int, describe bool) (
 			wantl = append(wantl, c.edesc(&c.MapList[i]))
 		}
 		if fmt.Sprint(gotl) != fmt.Sprint(wantl) {
-			violate("mapping", msig(c, "mapping-list"), fmt.Sprintf("the profile has the mappings %v, the memory map gives %v\n%s", gotl, wantl, show()))
+			violate("mapping", msig(c, "mapping-list"), fmt.Sprintf("the profile has the mappings %v, the memory map gives %v", gotl, wantl))
 		}
 	}
 	for i, s := range p.Sample {
@@ -739,7 +746,7 @@ func compare(raw json.RawMessage, c *lcase, data []byte, k int, describe bool) (
 			got = append(got, l.Address)
 		}
 		if fmt.Sprint(got) != fmt.Sprint(c.Stacks[i]) {
-			violate("addresses", sig(c, "addresses"), fmt.Sprintf("sample %d has addresses %x, want %x\n%s", i, got, c.Stacks[i], show()))
+			violate("addresses", sig(c, "addresses"), fmt.Sprintf("sample %d has addresses %x, want %x", i, got, c.Stacks[i]))
 			continue
 		}
 		want, exact := expectedValues(&c.Values[i])
@@ -752,15 +759,15 @@ func compare(raw json.RawMessage, c *lcase, data []byte, k int, describe bool) (
 			}
 		}
 		if !ok {
-			violate("values", sig(c, "values:"+c.Values[i].Rule), fmt.Sprintf("sample %d has values %v, rule %s gives %v\n%s", i, s.Value, c.Values[i].Rule, want, show()))
+			violate("values", sig(c, "values:"+c.Values[i].Rule), fmt.Sprintf("sample %d has values %v, rule %s gives %v", i, s.Value, c.Values[i].Rule, want))
 		}
 		if c.Doc.Fmt == "heap" || c.Doc.Fmt == "javaheap" {
 			lab := s.NumLabel["bytes"]
 			switch {
 			case c.Values[i].Bytes != 0 && (len(lab) != 1 || lab[0] != c.Values[i].Bytes):
-				violate("label", sig(c, "bytes-label"), fmt.Sprintf("sample %d has bytes label %v, want %d\n%s", i, lab, c.Values[i].Bytes, show()))
+				violate("label", sig(c, "bytes-label"), fmt.Sprintf("sample %d has bytes label %v, want %d", i, lab, c.Values[i].Bytes))
 			case c.Values[i].Bytes == 0 && len(lab) > 0 && lab[0] != 0:
-				violate("label", sig(c, "bytes-label"), fmt.Sprintf("sample %d has bytes label %v for an empty record\n%s", i, lab, show()))
+				violate("label", sig(c, "bytes-label"), fmt.Sprintf("sample %d has bytes label %v for an empty record", i, lab))
 			}
 		}
 		for j, l := range s.Location {
@@ -777,7 +784,7 @@ func compare(raw json.RawMessage, c *lcase, data []byte, k int, describe bool) (
 				gotm = mdesc(m.File, m.Start, m.Limit, m.Offset)
 			}
 			if gotm != want {
-				violate("mapping", sig(c, "mapping:"+c.Map), fmt.Sprintf("sample %d frame %d (address %#x) is attributed to mapping %s, want %s\n%s", i, j, l.Address, gotm, want, show()))
+				violate("mapping", sig(c, "mapping:"+c.Map), fmt.Sprintf("sample %d frame %d (address %#x) is attributed to mapping %s, want %s", i, j, l.Address, gotm, want))
 			}
 		}
 	}
